@@ -19,13 +19,17 @@ from typing import Any, Dict, List, Optional, Sequence, Tuple
 
 ASSUMPTIONS = [
     "Python compares/sorts str by code point (checked by the 'sort' suite against the model's lexLe on every run)",
-    "end-to-end model scenario: one compute framework per run, features without options / data types / domains "
-    "(Feature.__eq__ then distinguishes name and child_options only); other planner behaviour is C04/C10/C15",
+    "end-to-end model scenario: one compute framework per run, features without options / domains "
+    "(Feature.__eq__ then distinguishes name and child_options only); declared data types only on whole features of "
+    "PyArrow worlds without filters / links whose base name is requested once (so types never decide feature equality); "
+    "other planner behaviour is C04/C10/C15",
     "the column names present in a step's data are observed from the generated group's calculate_feature result and "
     "passed to the model (what the planner puts on a compute framework is not modelled here)",
     "iteration order of the `_selected_feature_names` set (ordering=None) is not modelled; results compared as sets",
     "filters are placed on root-group columns only (a filter on a derived feature can leave it without its inputs)",
-    "table order of get_results() is not part of the property; tables are compared as multisets",
+    "table order of get_results() is not part of the property; tables are compared as multisets; across request orders / "
+    "hash seeds the returned columns (with multiplicity) are compared, not their distribution over tables (with declared "
+    "data types an untyped feature joins whichever typed feature set comes first in set-iteration order)",
 ]
 
 CLS_REQORDER = "request_order-with-≥2-features-in-one-step"
@@ -191,7 +195,14 @@ def ch_e2e(c: Dict[str, Any]) -> Dict[str, Any]:
         kwargs["global_filter"] = gf
     out: Dict[str, Any] = {}
     try:
-        session = mloda.prepare(list(c["request"]), **kwargs)
+        types = c.get("types") or {}
+        if types:
+            from mloda.user import Feature
+
+            req_objs: List[Any] = [Feature(n, data_type=_dtype(types[n])) if n in types else n for n in c["request"]]
+        else:
+            req_objs = list(c["request"])
+        session = mloda.prepare(req_objs, **kwargs)
     except Exception as e:
         return {"stage": "prepare", "err": _err_enum(e) if isinstance(e, ValueError) else "other:" + type(e).__name__ + ":" + str(e)[:120]}
     out["entries"] = sorted(
@@ -215,7 +226,33 @@ def ch_e2e(c: Dict[str, Any]) -> Dict[str, Any]:
     return out
 
 
-CHILD = {"identify": ch_identify, "select": ch_select, "sfn": ch_sfn, "e2e": ch_e2e}
+DTYPE_TAGS = {"i32": "INT32", "i64": "INT64", "flt": "FLOAT", "dbl": "DOUBLE", "str": "STRING", "bool": "BOOLEAN"}
+DTYPE_ID = {"i32": 1, "i64": 2, "flt": 3, "dbl": 4, "str": 5, "bool": 6}
+
+
+def _dtype(tag: str) -> Any:
+    from mloda.core.abstract_plugins.components.data_types import DataType
+
+    return DataType[DTYPE_TAGS[tag]]
+
+
+def ch_grouping(c: Dict[str, Any]) -> Dict[str, Any]:
+    """the real ExecutionPlan.group_features_by_compute_framework_and_options on a set of typed / untyped features"""
+    from mloda.user import Feature
+    from mloda.core.prepare.execution_plan import ExecutionPlan
+
+    fs = set()
+    ident: Dict[int, List[Any]] = {}
+    for name, opt, tag in c["feats"]:
+        f = Feature(name, options={"x": opt} if opt else {}, data_type=_dtype(tag) if tag else None)
+        fs.add(f)
+        ident[id(f)] = [name, opt, tag]
+    order = [ident[id(f)] for f in fs]
+    res = ExecutionPlan(None, None).group_features_by_compute_framework_and_options(fs)
+    return {"order": order, "buckets": [sorted((ident[id(f)] for f in group), key=lambda t: t[0]) for group in res.values()]}
+
+
+CHILD = {"identify": ch_identify, "select": ch_select, "sfn": ch_sfn, "e2e": ch_e2e, "grouping": ch_grouping}
 
 
 def child_main() -> None:
@@ -310,10 +347,12 @@ def pick_names(rng: Any, n: int, with_prefix_pair: bool = True) -> List[str]:
     return names
 
 
-def gen_world(rng: Any, wid: int) -> Dict[str, Any]:
-    """A world = graph spec for the child + bookkeeping for oracle and model."""
-    template = rng.choice(["single", "single", "chain", "chain", "join", "join", "nosup"])
-    fw = rng.choice(["pa", "pd", "py"])
+def gen_world(rng: Any, wid: int, typed: bool = False) -> Dict[str, Any]:
+    """A world = graph spec for the child + bookkeeping for oracle and model.
+    typed=True: a world for requests that declare data types (PyArrow only: typed features on the other frameworks fail in
+    DataTypeValidator, C17 finding; no filters / links: their untyped aux features would differ from typed request features)"""
+    template = rng.choice(["single", "single", "chain", "chain", "join", "join", "nosup"]) if not typed else rng.choice(["single", "chain", "chain"])
+    fw = rng.choice(["pa", "pd", "py"]) if not typed else "pa"
     groups: List[Dict[str, Any]] = []
     links: List[List[Any]] = []
     used: List[str] = []
@@ -337,7 +376,7 @@ def gen_world(rng: Any, wid: int) -> Dict[str, Any]:
         return g
 
     if template in ("single", "nosup"):
-        groups.append(root(rng.randint(3, 5), rng.randint(0, 2) if template == "single" else 1, nosup=(template == "nosup")))
+        groups.append(root(rng.randint(4 if typed else 3, 5), rng.randint(0, 2) if template == "single" else 1, nosup=(template == "nosup")))
     elif template == "chain":
         r = root(rng.randint(3, 4), rng.randint(0, 1))
         groups.append(r)
@@ -373,11 +412,11 @@ def gen_world(rng: Any, wid: int) -> Dict[str, Any]:
         groups.append({"kind": "derived", "derived": {s: {"parents": [xa, yb], "expr": ["add", ["col", xa], ["col", yb]]}}, "multi": {}})
         links.append([0, ka, 1, kb])
     filters: List[List[Any]] = []
-    if rng.random() < 0.45:
+    if not typed and rng.random() < 0.45:
         rootcols = [c for g in groups if g["kind"] == "root" for c in g["data"] if c not in g["multi"]]
         for c in rng.sample(rootcols, rng.randint(1, min(2, len(rootcols)))):
             filters.append([c, "min", {"value": 0}])
-    return {"id": wid, "template": template, "fw": fw, "groups": groups, "links": links, "filters": filters}
+    return {"id": wid, "template": template, "fw": fw, "groups": groups, "links": links, "filters": filters, "typed": typed}
 
 
 def world_info(world: Dict[str, Any]) -> Dict[str, Any]:
@@ -536,7 +575,9 @@ def run(ctx: Any) -> None:
         "identify_fn/select_fn/set_feature_name_fn: generated inputs run on the real functions in child interpreters with "
         "different PYTHONHASHSEED, real set iteration orders passed to the model; e2e: generated graphs (root, derived, "
         "multi-column, index+link, global-filter features) x request subsets x permutations x column_ordering x hash seeds "
-        "through mloda.prepare + session.run; non-trivial = >=2 requested features or a multi-column/sub-column/aux feature"
+        "(also requests mixing features with several declared data types and untyped features of one group, PyArrow) "
+        "through mloda.prepare + session.run; grouping_fn: ExecutionPlan.group_features_by_compute_framework_and_options on "
+        "generated typed/untyped feature sets vs the model's groupByType (real set iteration order passed in); non-trivial = >=2 requested features or a multi-column/sub-column/aux feature"
     )
     seeds = list(range(ctx.budget(6, 12)))
     batches: Dict[int, List[Dict[str, Any]]] = {s: [] for s in seeds}
@@ -582,8 +623,70 @@ def run(ctx: Any) -> None:
         w = gen_world(rng, wid)
         worlds.append(w)
         infos.append(world_info(w))
+    ntyped = ctx.budget(30, 70)
+    for wid in range(nworlds, nworlds + ntyped):
+        w = gen_world(rng, wid, typed=True)
+        worlds.append(w)
+        infos.append(world_info(w))
     max_sub = 4 if ctx.quick else 5
+    TAGS = ["i64", "i32", "dbl", "flt"]  # integer root data: every numeric declaration passes the (lenient) type check
     for w, info in zip(worlds, infos):
+        if not w.get("typed"):
+            continue
+        # requests that declare data types: >= 2 different declared types and >= 1 untyped feature of one group (directed),
+        # one declared type + untyped, all typed, random mixes; optionally with a derived feature on top
+        rootnames = [n for n in info["requestable"] if info["owner"].get(n.split("~")[0]) == 0]
+        derived = [n for n in info["requestable"] if info["owner"].get(n.split("~")[0]) != 0 and "~" not in n]
+        plain = [n for n in rootnames if "~" not in n]
+        typed_cases: List[Tuple[Tuple[str, ...], Dict[str, str]]] = []
+        for _ in range(ctx.budget(3, 8)):
+            k = rng.randint(3, min(4, len(plain)))
+            sub = rng.sample(plain, k)
+            t1, t2 = rng.sample(TAGS, 2)
+            types = {sub[0]: t1, sub[1]: t2}
+            for extra in sub[2:-1]:
+                if rng.random() < 0.5:
+                    types[extra] = rng.choice(TAGS)
+            if derived and rng.random() < 0.5:
+                d = rng.choice(derived)
+                sub = sub + [d]
+                if rng.random() < 0.3:
+                    types[d] = rng.choice(TAGS)
+            typed_cases.append((tuple(sub), types))
+        for _ in range(ctx.budget(3, 8)):
+            k = rng.randint(2, min(max_sub, len(info["requestable"])))
+            sub = rng.sample(info["requestable"], k)
+            types = {n: rng.choice(TAGS) for n in sub if rng.random() < 0.55}
+            typed_cases.append((tuple(sub), types))
+        # a declared type is put on whole features only, and the same base feature is not requested a second time next to
+        # it (two request features that normalise to one name but differ in data type are distinct planned features; that
+        # interaction with the sub-column normalisation finding is outside the modelled scenario)
+        cleaned = []
+        for sub, types in typed_cases:
+            types = {n: t for n, t in types.items() if "~" not in n and sum(1 for m in sub if m.split("~")[0] == n) == 1}
+            cleaned.append((sub, types))
+        typed_cases = cleaned
+        seen_t = set()
+        for sub, types in typed_cases:
+            key = (frozenset(sub), json.dumps(types, sort_keys=True))
+            if key in seen_t:
+                continue
+            seen_t.add(key)
+            perms = list(itertools.permutations(sub))
+            if len(perms) > 6:
+                perms = rng.sample(perms, 6 if ctx.quick else 12)
+            for order in ORDERINGS:
+                for perm in perms:
+                    for seed in rng.sample(seeds, 2):
+                        ship(seed, {"kind": "e2e", "wid": w["id"], "request": list(perm), "order": order, "types": types}, {"suite": "e2e", "wid": w["id"]})
+    # the grouping function itself
+    for _ in range(ctx.budget(600, 6000)):
+        names = rng.sample(BASES, rng.randint(1, 6))
+        feats = [[n, rng.choice([0, 0, 0, 1]), rng.choice([None, None, "i64", "i32", "dbl", "str", "bool"])] for n in names]
+        ship(rng.choice(seeds), {"kind": "grouping", "feats": feats}, {"suite": "grouping_fn"})
+    for w, info in zip(worlds, infos):
+        if w.get("typed"):
+            continue
         reqable = info["requestable"]
         subsets: List[Tuple[str, ...]] = []
         # directed subsets: aux features together with another feature of the same group, sub-column requests, everything of a group
@@ -639,6 +742,9 @@ def run(ctx: Any) -> None:
                 else:
                     reqs.append({"op": "C03.select", "fw": c["fw"], "req": encs(o["req_order"]), "cols": encs(c["cols"]), "order": c["order"]})
                 slots.append((s, i, "select"))
+            elif k == "grouping":
+                reqs.append({"op": "C03.grouping", "feats": [[enc(n), o_, DTYPE_ID[t] if t else None] for n, o_, t in o["order"]]})
+                slots.append((s, i, "grouping"))
             elif k == "sfn":
                 reqs.append({"op": "C03.setFeatureName", "supported": encs(c["supported"]), "name": enc(c["name"])})
                 slots.append((s, i, "sfn"))
@@ -722,6 +828,22 @@ def run(ctx: Any) -> None:
                     got_all = sorted(set(impl["ok"])) if c["fw"] != "py" else sorted(set(k2 for r in impl["ok"] for k2 in r))
                     if got_all != expect:
                         ctx.violation(suite, c, f"{c['fw']} select returned columns {got_all}, columns of the requested features are {expect}", impl, expect)
+            elif k == "grouping":
+                mo = [sorted([[dec(f[0]), f[1], f[2]] for f in b], key=lambda t: t[0]) for b in model[(s, i, "grouping")]]
+                impl_b = [[[f[0], f[1], DTYPE_ID[f[2]] if f[2] else None] for f in b] for b in o["buckets"]]
+                ntypes = len({f[2] for f in c["feats"] if f[2]})
+                ctx.case(suite, c["feats"], ntypes >= 1 and any(f[2] is None for f in c["feats"]), ntypes=ntypes, untyped=sum(1 for f in c["feats"] if f[2] is None))
+                if impl_b != mo:
+                    ctx.disagree(suite, c, impl_b, mo)
+                # oracle: a partition into feature sets that share options and (for declared features) the data type
+                flat = [tuple(f) for b in o["buckets"] for f in b]
+                if sorted(flat, key=str) != sorted((tuple(f) for f in c["feats"]), key=str):
+                    dup = sorted({f[0] for f in flat if flat.count(f) > 1})
+                    ctx.violation(suite, c, f"features {c['feats']} are split into feature sets {o['buckets']}: every feature must be in exactly one feature set "
+                                  f"(= one step, one result table); in several: {dup}", o["buckets"], "partition")  # fmt: skip
+                for b in o["buckets"]:
+                    if len({f[1] for f in b}) > 1 or len({f[2] for f in b if f[2]}) > 1:
+                        ctx.violation(suite, c, f"feature set {b} mixes options or declared data types", o["buckets"], "homogeneous")
             elif k == "sfn":
                 impl = o
                 mo_n, mo_b = dec(model[(s, i, "sfn")]), dec(model[(s, i, "base")])
@@ -738,7 +860,8 @@ def run(ctx: Any) -> None:
                 multi_or_aux = any(("~" in r) or (r in info["multi"]) or any(r in a for a in info["aux"].values()) for r in request)
                 ctx.case(suite, [c["world"]["id"], c["world"]["template"], request, order, o["seed"]], len(request) >= 2 or multi_or_aux,
                          fw=c["world"]["fw"], ordering=str(order), template=c["world"]["template"], nreq=len(request),
-                         filters=bool(c["world"]["filters"]), links=bool(c["world"]["links"]))  # fmt: skip
+                         filters=bool(c["world"]["filters"]), links=bool(c["world"]["links"]),
+                         declared_types=len(set((c.get("types") or {}).values())), untyped=sum(1 for r in request if r not in (c.get("types") or {})))  # fmt: skip
                 # -- model vs implementation
                 model_agrees = True
                 if o.get("stage") == "prepare":
@@ -784,13 +907,17 @@ def run(ctx: Any) -> None:
                     if vv["kind"] == "failed" and aux_predicate(info, request) and model_agrees:
                         cls = CLS_AUX
                     ctx.violation(suite, c, vv["what"], o.get("tables", o.get("err")), "property C03", finding_class=cls)
-                outcome = canon_tables(o["tables"], True) if "tables" in o else "error"
-                groups_perm.setdefault((c["world"]["id"], frozenset(request), order), []).append((request, outcome, model_agrees))
+                # what must not depend on request order / hash seed: which columns are returned (with multiplicity). How the
+                # planner distributes them over tables is not part of the property: with declared data types an untyped
+                # feature joins the first typed feature set in set-iteration order (any one is fine, see C03.grouping_partition)
+                outcome = [sorted(c2 for t in o["tables"] for c2 in t)] if "tables" in o else "error"
+                tkey = json.dumps(c.get("types") or {}, sort_keys=True)
+                groups_perm.setdefault((c["world"]["id"], frozenset(request), order, tkey), []).append((request, outcome, model_agrees))
                 if order == "request_order":
-                    groups_seed.setdefault((c["world"]["id"], tuple(request)), []).append((o["seed"], canon_tables(o["tables"], False) if "tables" in o else "error", model_agrees))
+                    groups_seed.setdefault((c["world"]["id"], tuple(request), tkey), []).append((o["seed"], canon_tables(o["tables"], False) if "tables" in o else "error", model_agrees))
 
     # ---- order / seed independence (needs several executions of the same request) ----------------
-    for (wid, sub, order), runs in groups_perm.items():
+    for (wid, sub, order, _tkey), runs in groups_perm.items():
         info = infos[wid]
         outs_ = {json.dumps(r[1]) for r in runs}
         ctx.case("e2e_order_independence", [wid, sorted(sub), order], len(runs) >= 2)
@@ -819,7 +946,7 @@ def run(ctx: Any) -> None:
             cls = CLS_AUX if (agrees and some_aux and len(reduced) <= 1) else None
             ctx.violation("e2e_order_independence", {"world": worlds[wid], "order": order, "request_a": a[0], "request_b": b[0]},
                           f"same features, different request order / hash seed, different result: {a[0]} -> {a[1]} but {b[0]} -> {b[1]}", a[1], b[1], finding_class=cls)  # fmt: skip
-    for (wid, req), runs in groups_seed.items():
+    for (wid, req, _tkey), runs in groups_seed.items():
         ctx.case("e2e_seed_independence", [wid, list(req)], len({r[0] for r in runs}) >= 2)
         outs_ = {json.dumps(r[1]) for r in runs}
         if len(outs_) > 1:
